@@ -428,6 +428,31 @@ def jsonable(x):
   return repr(x)
 
 
+def stale_call(f, *args):
+  """f(*args), but evaluated the way iterative callers do it: every ndarray argument lives in a buffer that held OTHER values during an
+  earlier call of f and was then overwritten in place.  A memo keyed on the caller's array object (or on a stale copy of anything that
+  is not the value) returns the earlier answer here; a correct implementation cannot tell the difference.  Exceptions of the decoy
+  call are ignored."""
+  import numpy as np
+  bufs = [np.array(a, dtype=float) if isinstance(a, np.ndarray) else a for a in args]
+  for b, a in zip(bufs, args):
+    if isinstance(b, np.ndarray):
+      b[...] = np.roll(a.reshape(-1), 1).reshape(a.shape) * 0.75 + 0.125
+  try:
+    f(*bufs)
+  except Exception:
+    pass
+  for b, a in zip(bufs, args):
+    if isinstance(b, np.ndarray):
+      b[...] = a
+  return f(*bufs)
+
+
+def maybe_stale(case, f, *args):
+  """stale_call for half of the cases (decided by the case content), a plain call for the others."""
+  return stale_call(f, *args) if int(case_hash(case), 16) % 2 else f(*args)
+
+
 def case_hash(case):
   return hashlib.sha1(json.dumps(jsonable(case), sort_keys=True).encode()).hexdigest()[:12]
 
